@@ -52,12 +52,25 @@ for nargs in (1, 2):   # the zero-argument instance did not finish in 900 s (sol
     add("call_builtin_a%d" % nargs, "9.i", "call_rule!(call_builtin_a%d, 1, [0], %d, true, 0);" % (nargs, nargs),
         shape={"builtin": "shout (arity 1)", "arguments": nargs})
 
+FIELDS = [(0, "len"), (1, "find"), (2, "replace"), (3, "slice"), (4, "split"), (5, "join"), (6, "push"), (7, "abs"),
+          (8, "success"), (9, "run"), (10, "nosuch"), (11, "trim"), (12, "pop")]
+for fid, fname in FIELDS:
+    for nargs in (0, 1, 2):
+        quick = (fname in ("find", "replace", "slice", "split", "join", "len", "nosuch") and nargs in (1, 2)) or (fname in ("len", "abs", "run", "push") and nargs == 0)
+        add("member_%s_a%d" % (fname, nargs), "9.c", "member_call_rule!(member_%s_a%d, %d, %d);" % (fname, nargs, fid, nargs),
+            tier="quick" if quick else "thorough", input_class="method:" + fname,
+            shape={"method": fname, "arguments": nargs, "receiver type": "all 9 static types", "argument type": "all 9 static types"},
+            contract_stubs=["infer_expr_type -> any static type for the receiver and for the arguments"])
+
 PROP = Property(
     "C09",
     anchors={R: "src/resolver.rs"},
     obligations=[
         O("9.a", "binary operator type table, all static type combinations", ["resolver::Resolver::check_expr"], "one Binary node"),
         O("9.b", "not / unary minus / index / condition type rules", ["resolver::Resolver::check_expr", "resolver::Resolver::check_boolean_expr"], "one node"),
+        O("9.c", "member calls: unknown method, argument count and typed arguments per receiver type",
+          ["resolver::Resolver::check_expr", "resolver::Resolver::expect_member_string_arg", "resolver::Resolver::expect_member_number_arg"],
+          "13 method names x 0..2 arguments x 9 receiver types x 9 argument types"),
         O("9.d", "comot/next rejected iff outside a loop", ["resolver::Resolver::check_stmt"], "loop depth 0..3"),
         O("9.e", "loop body entered one level deeper, restored afterwards", ["resolver::Resolver::check_stmt"], "loop depth 0..3"),
         O("9.f", "function body entered with current_function = Some(f) and loop depth 0; parameters form one new scope; all restored",
@@ -69,6 +82,7 @@ PROP = Property(
           ["resolver::Resolver::check_expr", "resolver::Resolver::lookup_func"], "function scope stacks <= 2 x 2, 0..2 arguments"),
     ],
     harnesses=hs,
+    duplicates=[(R, "src/resolver.rs", "check_expr", "verif_outer_check_expr", "impl<'ast, 'res> Resolver<'ast, 'res>")],
     assumptions=[
         "each rule is decided on ONE real routine and ONE node; nesting is represented by the symbolic context state (in_loop, current_function, scope stacks), recursive calls by contract stubs; that the contracts compose over whole programs is an argument, not a check",
         "infer_expr_type is stubbed to return ANY static type for an operand (over-approximates what sub-expressions can have); its agreement with the real types of sub-expressions is outside the claim",
